@@ -32,6 +32,7 @@ def exc_isa(cls, parent):
     return False
 
 
+STR_CONCAT = z3.Function("str_concat", Id, Id, Id)   # opaque string concatenation
 _QCACHE = {}
 
 
@@ -234,6 +235,8 @@ class Engine:
             return z3.And(*cs) if cs else True
         if isinstance(a, VClass) and isinstance(b, VClass):
             return a.name == b.name
+        if isinstance(a, VClass) or isinstance(b, VClass):
+            return False
         if isinstance(a, VTuple) and isinstance(b, VObj) or isinstance(a, VObj) and isinstance(b, VTuple):
             return False  # tuple == list is False in Python
         if isinstance(a, VOpaque) or isinstance(b, VOpaque):
@@ -438,6 +441,8 @@ class Engine:
             for b in val.__mro__[1:2]:
                 EXC_PARENTS.setdefault(val.__name__, b.__name__)
             return VClass(val.__name__)
+        if isinstance(val, type):
+            return VClass(val.__name__)
         if isinstance(val, dict) and all(isinstance(k, str) for k in val):
             out = {}
             for k, v in val.items():
@@ -580,6 +585,10 @@ class Engine:
         if isinstance(op, ast.Add) and isinstance(a, VObj) and a.kind == "list" and a.cls == "list" \
                 and isinstance(b, VObj) and b.kind == "list":
             return [B.list_concat(self, st, a, b)]
+        if isinstance(op, ast.Add) and isinstance(a, (VStr, VConc)) and isinstance(b, (VStr, VConc)):
+            if isinstance(a, VConc) and isinstance(b, VConc):
+                return [("ok", st, VConc(a.py + b.py))]
+            return [("ok", st, VStr(STR_CONCAT(unwrap(a, "id"), unwrap(b, "id"))))]
         if isinstance(op, ast.Add) and isinstance(a, VTuple) and isinstance(b, VTuple):
             return [("ok", st, VTuple(a.items + b.items))]
         if isinstance(a, (VObj, VRef)):
@@ -713,6 +722,8 @@ class Engine:
             r = h(self, st, v, name)
             if r is not None:
                 return r
+        if name == "__class__" and not isinstance(v, (VObj, VRef)) and self.pytype(v):
+            return [("ok", st, VClass(self.pytype(v)))]
         if isinstance(v, VObj):
             rec = st.objs[v.oid]
             if "attr:" + name in rec:
@@ -741,6 +752,8 @@ class Engine:
                 else:
                     outs.extend(self._getattr_ref(s2, v, name, default))
             return outs
+        if isinstance(v, VClass) and name == "__name__":
+            return [("ok", st, VConc(v.name))]
         if isinstance(v, VClass):
             return [("ok", st, VFunc("unbound", v.name, name))]
         if isinstance(v, VNone):
@@ -777,6 +790,12 @@ class Engine:
         if r is not None:
             return r
         if name in self.reg.fields:
+            kind = self.reg.fields[name]
+            if kind.startswith("set:"):
+                # set-valued field of a symbolic object: a read-only snapshot set (writes through it are unsupported)
+                st2, sv = alloc_set(st, kind[4:], dom=z3.Select(self.heap_arr(st, name), v.t))
+                st2 = st2.updobj(sv.oid, readonly=True, card_unknown=True)
+                return [("ok", st2, sv)]
             return [("ok", st, self.heap_read(st, name, v.t))]
         if default is not None:
             return [("ok", st, default)]
